@@ -106,7 +106,9 @@ func c11atomic(c *Ctx) {
 						ok, why = false, "the transport write does not include buf0"
 					}
 					empty1 := hasLit(p, last.NLits, true, func(t *core.Term) bool {
-						return isEqConst(t, 0, func(y *core.Term) bool { return y.Kind == core.KLen && y.Args[0].Kind == core.KParam && y.Args[0].Ref == fn.Params[4] })
+						return isEqConst(t, 0, func(y *core.Term) bool {
+							return y.Kind == core.KLen && y.Args[0].Kind == core.KParam && y.Args[0].Ref == fn.Params[4]
+						})
 					})
 					if !empty1 && !covers(4) {
 						ok, why = false, "a frame with a second buffer is not written in one transport operation together with its header"
